@@ -13,11 +13,20 @@ def exc_name(e):
 
 
 def verify(unit, run, post=None, timeout_ms=10000, feas_timeout_ms=3000, want_sample=True,
-           use_cvc5=True, strings=False, max_paths=200000, exclusions=None):
+           use_cvc5=True, strings=False, max_paths=200000, exclusions=None, cross=None):
     """exclusions: optional callable(path) -> list of (id, z3 predicate) describing known-finding
     witness classes over the path's inputs; a refuted obligation is re-asked outside them."""
     t0 = time.time()
     paths, stats = explore(run, post, max_paths=max_paths, feas_timeout_ms=feas_timeout_ms)
+    if cross is not None:
+        # obligations that relate DIFFERENT paths of the unit (e.g. monotonicity across a branch of the code): cross(paths)
+        # returns (Obligation, inputs) pairs built from the paths' conditions with their internal variables renamed apart
+        class _X(object):
+            pass
+        for ob, inputs in cross([p for p in paths if p.outcome == 'ret']):
+            x = _X()
+            x.outcome, x.value, x.obligations, x.inputs, x.assumptions = 'ret', None, [ob], inputs, set()
+            paths.append(x)
     results = []
     assumptions = set()
     sample = None
